@@ -219,6 +219,13 @@ func newState(cfg *config, th *starlark.Thread) *state {
 	return st
 }
 
+func (st *state) rawLayout() string {
+	if st.cfg.set {
+		return st.s.VerifLayout(keyName)
+	}
+	return st.d.VerifLayout(keyName)
+}
+
 // canonical key of the state.
 func (st *state) key() string {
 	name := keyName
@@ -970,6 +977,12 @@ func replayPath(cfg *config, th *starlark.Thread, path []uint16, checkAll bool) 
 			return st, msg, i
 		}
 		if checkAll || i == len(path)-1 {
+			// A cyclic order list would make every iteration below (and any
+			// Starlark loop over the collection) run for ever: report it as
+			// what it is instead of hanging.
+			if lay := st.rawLayout(); strings.Contains(lay, "!cycle") {
+				return st, "the insertion-order list is cyclic, so iterating the collection never terminates: " + lay, i
+			}
 			if msg := st.observe(); msg != "" {
 				return st, msg, i
 			}
@@ -983,6 +996,7 @@ type succ struct {
 	opi    uint16
 	key    string
 	bad    string
+	anomaly bool
 }
 
 func searchConfig(c *fw.Ctx, cfg *config, total *fw.Stats) {
@@ -1021,10 +1035,12 @@ func searchConfig(c *fw.Ctx, cfg *config, total *fw.Stats) {
 						st, bad, _ := replayPath(cfg, th, path, false)
 						s := succ{parent: pi, opi: uint16(oi), bad: bad}
 						if bad == "" {
+							// A back-link or tail pointer that disagrees with the forward list
+							// ("!bad..." in the layout) is not observable by itself; such a state is
+							// kept as a distinct state and explored, so that the first operation
+							// whose result it corrupts is reported with its full history.
 							s.key = st.key()
-							if strings.Contains(s.key, "!bad") || strings.Contains(s.key, "!cycle") {
-								s.bad = "corrupt linked list: " + s.key
-							}
+							s.anomaly = strings.Contains(s.key, "!bad")
 						}
 						out = append(out, s)
 					}
@@ -1062,6 +1078,9 @@ func searchConfig(c *fw.Ctx, cfg *config, total *fw.Stats) {
 			if _, ok := seen[s.key]; !ok {
 				seen[s.key] = struct{}{}
 				states++
+				if s.anomaly {
+					total.Count(cfg.name+".states_with_inconsistent_back_links(explored further)", 1)
+				}
 				next = append(next, path)
 			}
 		}
